@@ -70,8 +70,9 @@ class ConnectedStreamClient(_transports.AsyncBaseTransport, Generic[_T_Response]
         """
         Closes the endpoint.
         """
-        with self.__send_guard:
-            await self.__transport.aclose()
+        # NOTE: Like the other stream endpoints, closing does not go through the send guard:
+        #       a forceful close (e.g. a cancelled close) must get through even if a send_packet() is in flight.
+        await self.__transport.aclose()
 
     async def send_packet(self, packet: _T_Response) -> None:
         """
